@@ -10,7 +10,7 @@ SPEC = {
              'batch sizes; acceptance only when empty (judged on the previous event boundary); buffers and sinks count every leaf (level() == stored leaf parts, sink counters); every held '
              'batch\'s routing history is a suffix of each contained part\'s; a case is one model; non-trivial = '
              'at least one output emitted by a batcher and a batch received somewhere; also: user-defined Batch subclasses, hand-made parts added to batches by callbacks, refused history removals, and the rule that a part\'s routing history never loses entries'),
-    'floors': {'quick': {'batcher_outputs': 5000, 'batcher_checks': 30000, 'empty_batches_consumed': 20,
+    'floors': {'quick': {'batcher_outputs': 3500, 'batcher_checks': 30000, 'empty_batches_consumed': 20,
                          'batch_history_checks': 5000},
                'thorough': {'batcher_outputs': 100000, 'batcher_checks': 600000, 'empty_batches_consumed': 400,
                             'batch_history_checks': 100000}},
